@@ -102,6 +102,27 @@ func alphabet(full, multi bool) []symbol {
 	return a
 }
 
+// alphabetMcast: the multicast transport next to UDP on a server that offers both.
+func alphabetMcast() []symbol {
+	setup := func(name, sid, track, trs string) symbol {
+		s := sym(name, "setup", sid)
+		s.track, s.trs = track, trs
+		return s
+	}
+	return []symbol{
+		setup("setup0-mcast", "n", "0", "m.0.1.1.0.0"),
+		setup("setup1-mcast+s", "r", "1", "m.0.0.1.0.0"),
+		setup("setup1-udp+s", "r", "1", "u.0.0.1.0.0"),
+		setup("setup0-mcast-then-tcp", "n", "0", "m.1.0.1.0.0,t.0.1.1.0.0"),
+		sym("announce", "announce", "n"),
+		setup("setup0-mcast-rec", "n", "0", "m.0.2.1.0.0"),
+		sym("play+s", "play", "r"),
+		sym("pause+s", "pause", "r"),
+		sym("teardown+s", "teardown", "r"),
+		symbol{name: "close0", close: true},
+	}
+}
+
 func (s symbol) op(v *view) (string, bool) {
 	if s.close {
 		return fmt.Sprintf("sess close %d", s.conn), true
